@@ -2,9 +2,11 @@
 
 M   : spec/Voter.tla (design layer = voter.go vote path + vote_cache.go, crash points inside every run) checked
       exhaustively with a guessed target (kind, round, index):
-        M_known   as coded, invariants weakened by the classes listed as known findings  -> must hold (nothing else can fail)
-        M_strict  as coded, the four invariants as stated -> TLC's counterexample is exported and replayed on the real code
-        M_repair  the three proposed repairs switched on, invariants as stated -> must hold
+        M_*          the design as repaired in /repo (commits aea030d, 0272f73, 69e4cfb: Repair = certReload, replayMoves,
+                     noBackward), the four invariants as stated -> must hold
+        M_before_fix the design as it was coded before those commits, invariants as stated -> TLC's counterexamples are the
+                     design-level argument for the fixes; they are exported and replayed on the real code, where they must
+                     now pass (information only: this run never decides the exit code)
 G1  : every behaviour up to a length over a reduced alphabet (crash points included), printed as JSON.
 G2  : `tlc -simulate` over the rich alphabet (3 rounds x 3 indices, certificate round, several crashes).
 T   : the driver `voter` steps every behaviour through the real ucon.Voter/VoteDB (exported constructor, crash-injecting
@@ -38,7 +40,7 @@ REPAIRS = '{"certReload", "replayMoves", "noBackward"}'
 
 
 def cfg(mode, **kw):
-    d = dict(MaxR=1, MaxI=2, MaxCrash=1, Cert="{}", QKinds=ALLK, MaxQ=2, Repair="{}", Mode=mode, MaxOps=0, Weaken="TRUE")
+    d = dict(MaxR=1, MaxI=2, MaxCrash=1, Cert="{}", QKinds=ALLK, MaxQ=2, Repair=REPAIRS, Mode=mode, MaxOps=0, Weaken="FALSE")
     d.update(kw)
     if mode == "M":
         d["head"], d["tail"] = "SPECIFICATION Spec", INVS
@@ -68,54 +70,50 @@ def witnesses():
 
 
 def design(ctx):
-    """The exhaustive design-level runs.  Returns (behaviours to replay, violated-name of the strict run)."""
+    """The exhaustive design-level runs.  Returns (behaviours to replay, clause violated before the fixes, all M runs held)."""
     quick = ctx.quick
     cex = []
     runs = []
     if quick:
-        runs.append(("M_known", dict(MaxQ=1)))
-        runs.append(("M_known_cert", dict(MaxI=1, Cert="{1}")))
+        runs.append(("M_repaired", dict(MaxQ=1)))
+        runs.append(("M_repaired_cert", dict(MaxI=1, Cert="{1}")))
     else:
-        runs.append(("M_known", dict(MaxQ=2, MaxCrash=2)))
-        runs.append(("M_known_cert", dict(Cert="{1}")))
-        runs.append(("M_known_2rounds", dict(MaxR=2, MaxQ=1)))
+        runs.append(("M_repaired", dict(MaxQ=2, MaxCrash=2)))
+        runs.append(("M_repaired_cert", dict(Cert="{1}")))
+        runs.append(("M_repaired_2rounds", dict(MaxR=2, MaxQ=1)))
     ok = True
     zero = set()
     for name, kw in runs:
-        m = ctx.tlc_must("Voter", cfg("M", **kw), name=name, timeout=3000, coverage=(not quick and name == "M_known_cert"))
+        m = ctx.tlc_must("Voter", cfg("M", **kw), name=name, timeout=3000, coverage=(not quick and name == "M_repaired_cert"))
         if m.violated:
-            # something outside the known classes fails at design level: export, replay, let the real code decide
+            # the design fails: export, replay, let the real code decide
             ok = False
             ctx.cov["design_violation"] = m.violated
             for v in m.printed:
                 if isinstance(v, dict) and v.get("kind") == "CEX":
                     cex.append(v["h"])
-                    ctx.note("design-level counterexample OUTSIDE the known classes for %s (target %s) exported for replay" % (v.get("clause"), v.get("tgt")))
+                    ctx.note("design-level counterexample for %s (target %s) exported for replay" % (v.get("clause"), v.get("tgt")))
         if getattr(m, "zero_actions", None):
             zero |= set(m.zero_actions)
     ctx.cov["exhaustive"] = ok
     if zero:
         ctx.cov["coverage_zero_actions"] = sorted(zero)
-    # as coded, invariants as stated: the shortest design-level violation, replayed on the real code
-    ms = ctx.tlc_must("Voter", cfg("M", Weaken="FALSE", Cert="{1}", MaxI=2), name="M_strict", timeout=1500)
-    strict = ms.violated
+    # the design as coded BEFORE the fix commits, invariants as stated: the argument for the fixes.  Its counterexamples
+    # are replayed on the real code like any other behaviour (they must pass now); the run itself decides nothing.
+    ms = ctx.tlc("Voter", cfg("M", Repair="{}", Cert="{1}", MaxI=2), name="M_before_fix", timeout=1500, count=False)
+    before = ms.violated
     for v in ms.printed:
         if isinstance(v, dict) and v.get("kind") == "CEX":
             cex.append(v["h"])
-    ctx.cov["design_violation_as_coded"] = strict
-    # the proposed repairs, invariants as stated
-    mr = ctx.tlc_must("Voter", cfg("M", Weaken="FALSE", Repair=REPAIRS, **(dict(MaxQ=1) if quick else dict(Cert="{1}"))), name="M_repair", timeout=3000)
-    ctx.cov["repaired_design_holds"] = bool(mr.ok)
-    if not mr.ok:
-        ctx.note("the repaired design still violates %s (information only)" % mr.violated)
-    return cex, strict, ok
+    ctx.cov["design_violation_before_fix"] = before
+    return cex, before, ok
 
 
 def generate(ctx):
     quick = ctx.quick
     behs = witnesses()
     nw = len(behs)
-    cex, strict, ok = design(ctx)
+    cex, before, ok = design(ctx)
     behs += cex
     nc = len(behs)
     # G1: bounded exhaustive, reduced alphabets
@@ -142,7 +140,7 @@ def generate(ctx):
     rnd.shuffle(sim)
     behs += sim[:(1500 if quick else 15000)]
     ctx.note("behaviours: %d witnesses, %d design counterexamples, %d bounded-exhaustive, %d simulated" % (nw, nc - nw, n1 - nc, len(behs) - n1))
-    return behs, strict, ok
+    return behs, before, ok
 
 
 def judge(ctx, behs):
@@ -224,7 +222,7 @@ def run(ctx):
         "votes are compared as a set of (kind, round, index, hash): re-signing the same hash is not a second vote",
         "crash = the process dies right after or right before a database write of the run; nothing else survives but the database",
     ]
-    behs, strict, ok = generate(ctx)
+    behs, before, ok = generate(ctx)
     for b in behs[:3]:
         ctx.sample(b)
     trace, res = judge(ctx, behs)
@@ -234,8 +232,8 @@ def run(ctx):
     for c in ("OnePrevote", "OnePrecommit", "OneCertificate", "AtMostTwoNext"):
         if not fired.get(c):
             raise vlib.Undecided("clause %s never fired: generator bug" % c)
-    if (strict or not ok) and not ctx.violations and not ctx.known_hits:
-        raise vlib.Undecided("design-level counterexample (%s) did not reproduce on the real code: specification drift" % strict)
+    if not ok and not ctx.violations and not ctx.known_hits:
+        raise vlib.Undecided("design-level counterexample (%s) did not reproduce on the real code: specification drift" % ctx.cov.get("design_violation"))
 
 
 def replay(ctx, path):
